@@ -241,6 +241,52 @@ pub fn run(ctx: &Ctx) -> i32 {
         }
     });
     convertible += convertible_ctr.load(std::sync::atomic::Ordering::Relaxed);
+    // 1b. what the tool prints must load back: every scalar numeric attribute of the smallest shipped project set to 0
+    // (no occupants, no thickness, no power ...), converted in this process; wherever the model's own JSON does not load
+    // back as the same model, the tool is run on that project and judged like any other project
+    {
+        let mut sized: Vec<String> = corpus::project_dirs().iter().filter_map(|d| corpus::ctehexml_path(d)).collect();
+        sized.sort_by_key(|f| std::fs::metadata(f).map(|m| m.len()).unwrap_or(0));
+        let src = sized[0].clone();
+        let text = corpus::read_utf8(&src);
+        let lines: Vec<&str> = text.split('\n').collect();
+        let a = lines.iter().position(|l| l.contains("<EntradaGraficaLIDER>")).unwrap_or(0);
+        let b = lines.iter().position(|l| l.contains("</EntradaGraficaLIDER>")).unwrap_or(lines.len());
+        let cands: Vec<usize> = (a..b).filter(|i| lines[*i].split_once('=').map_or(false, |(_, v)| v.trim().parse::<f64>().map_or(false, |x| x != 0.0))).collect();
+        let bad: Mutex<Vec<(usize, String)>> = Mutex::new(vec![]);
+        par_for(cands.len() as u64, |k| {
+            let i = cands[k as usize];
+            let (key, _) = lines[i].split_once('=').unwrap();
+            let mut ls: Vec<String> = lines.iter().map(|l| l.to_string()).collect();
+            ls[i] = format!("{}= 0", key);
+            let t = ls.join("\n");
+            if let corpus::Outcome::Ok(m) = corpus::convert_text(&t, false) {
+                let j = m.as_json().unwrap_or_default();
+                let back = Model::from_json(&j).ok().and_then(|m2| m2.as_json().ok());
+                if back.as_deref() != Some(j.as_str()) {
+                    bad.lock().unwrap().push((i, t));
+                }
+            }
+        });
+        ctx.eval(cands.len() as u64);
+        let bad = bad.into_inner().unwrap();
+        ctx.note("zeroed_attributes", json!({"project": src, "attributes": cands.len(), "models_whose_json_does_not_load_back": bad.len()}));
+        for (i, t) in bad.iter().take(8) {
+            let d = format!("{}/.cache/c01-zeroed/line{}", verif_dir(), i);
+            let _ = std::fs::remove_dir_all(&d);
+            std::fs::create_dir_all(&d).unwrap();
+            std::fs::write(format!("{}/p.ctehexml", d), t).unwrap();
+            let p = run_proc(&bin("hulc2model"), &[d.as_str()], 120);
+            let out = String::from_utf8_lossy(&p.stdout).to_string();
+            let lib = catch(std::panic::AssertUnwindSafe(|| hulc2model::collect_hulc_data(&d, false, false).ok().and_then(|m| m.as_json().ok()))).ok().flatten();
+            ctx.eval(1);
+            let loads_as_lib = Model::from_json(&out).ok().and_then(|m| m.as_json().ok());
+            if p.code == Some(0) && lib.is_some() && loads_as_lib != lib {
+                ctx.violation("hulc2model:stdout-not-a-model", &format!("line {} ({}) set to 0: the tool exits 0 but its standard output does not load as the model the library yields", i + 1, lines[*i].trim()), json!({"tool": "hulc2model", "project": src, "line": i + 1, "attribute": lines[*i].trim(), "set_to": 0}));
+            }
+            let _ = std::fs::remove_dir_all(&d);
+        }
+    }
     // 2. directories that hold no project
     let base = format!("{}/.cache/c01-dirs", verif_dir());
     let _ = std::fs::remove_dir_all(&base);
@@ -286,7 +332,7 @@ pub fn run(ctx: &Ctx) -> i32 {
     }
     ctx.finish(
         "exploration",
-        "every project directory (12 shipped incl. VyP and GT system sections + synthetic directories written by the generator, with and without KyG/tbl files) x {default, --use-extra}: hulc2model is run as a process (stdout captured, exit status) and compared with hulc2model::collect_hulc_data computed in a monitored worker process (any byte on fd 1 during the library call is a violation); stdout must parse as a whole as one JSON document and load as a model whose re-serialisation is byte-identical to the library's, also when the directory is named with a trailing slash or relative to the working directory, when RUST_LOG=trace is set, when the directory name holds blanks and non-ASCII letters, and when only one of the two result files exists; thor FILE -o OUT (OUT pre-existing and longer than any model) must leave exactly the library model JSON in the file and nothing on stdout; 7 kinds of non-project directory (empty, only a text file, a plain file, missing, truncated XML, project file in ISO-8859-1, project file that is a directory) x 2 flag sets must give a non-zero exit status and no JSON; the stdout monitor also runs over grey-box value substitutions (XML values replaced by the string literals the parser source branches on; 2 projects quick / all thorough) and, in thorough, over every 'remove one block' mutant of every shipped .ctehexml; non-trivial = convertible project run or non-project run",
+        "every project directory (12 shipped incl. VyP and GT system sections + synthetic directories written by the generator, with and without KyG/tbl files) x {default, --use-extra}: hulc2model is run as a process (stdout captured, exit status) and compared with hulc2model::collect_hulc_data computed in a monitored worker process (any byte on fd 1 during the library call is a violation); stdout must parse as a whole as one JSON document and load as a model whose re-serialisation is byte-identical to the library's, also when the directory is named with a trailing slash or relative to the working directory, when RUST_LOG=trace is set, when the directory name holds blanks and non-ASCII letters, and when only one of the two result files exists; thor FILE -o OUT (OUT pre-existing and longer than any model) must leave exactly the library model JSON in the file and nothing on stdout; every scalar numeric attribute of the smallest shipped project set to 0 (library conversion in-process; where the model's JSON does not load back, the tool itself is run and judged); 7 kinds of non-project directory (empty, only a text file, a plain file, missing, truncated XML, project file in ISO-8859-1, project file that is a directory) x 2 flag sets must give a non-zero exit status and no JSON; the stdout monitor also runs over grey-box value substitutions (XML values replaced by the string literals the parser source branches on; 2 projects quick / all thorough) and, in thorough, over every 'remove one block' mutant of every shipped .ctehexml; non-trivial = convertible project run or non-project run",
         true,
         json!({}),
     )
